@@ -106,16 +106,18 @@ func (f *file) Run(ctx context.Context) error {
 
 	f.log.Infof("Trust anchors file '%s' found", f.path)
 
-	if err := f.updateAnchors(ctx); err != nil {
-		return err
-	}
-
+	// Start watching before the first load, so that a change made while (or right
+	// after) the file is read is not missed.
 	fs, err := fswatcher.New(fswatcher.Options{
 		Targets:  []string{filepath.Dir(f.path)},
 		Interval: &f.fsWatcherInterval,
 	})
 	if err != nil {
 		return fmt.Errorf("failed to create file watcher: %w", err)
+	}
+
+	if err = f.updateAnchors(ctx); err != nil {
+		return err
 	}
 
 	close(f.readyCh)
